@@ -94,6 +94,20 @@ def make_configs(r, n):
             opts[opts.index('--strategy') + 1] = st
             meta['strategy'] = st
             cfgs[i] = (text, spec, opts, meta)
+    # an input that is minimal in its commands but still carries its
+    # comments: a top-level pass adopts candidates without lowering the
+    # number of (non-leaf) expressions, and later passes rewrite the terms
+    text = ('; produced by a fuzzer\n(set-logic QF_LIA)\n; declarations\n'
+            '(declare-const a Int)\n(declare-const b Int)\n; the goal\n'
+            '(assert (> (+ a (* 2 b)) (- b 7)))\n(check-sat)\n; end\n')
+    for st, j in (('ddmin', 1), ('ddmin', 2), ('hybrid', 1), ('hybrid', 2)):
+        cfgs.append((text, {'mode': 'count',
+                            'counts': {'set-logic': 1, 'a': 1, 'b': 1,
+                                       'declare-const': 2, '>': 1,
+                                       'check-sat': 1},
+                            'delay_ms': 3, 'delay_seed': r.randint(0, 10**6)},
+                     ['--strategy', st, '-j', str(j)],
+                     {'strategy': st, 'jobs': j, 'n': 'comments-%s-%d' % (st, j)}))
     return cfgs
 
 
